@@ -44,6 +44,18 @@ fn grid(thorough: bool) -> Vec<(String, LzOpts)> {
         o.dict = dict;
         v.push((format!("dict={dict}"), o));
     }
+    // dictionary sizes that are not of the form 2^n / 3 * 2^(n-1) (no preset uses one), in the mode with distance price
+    // tables: the tables are sized from the distance slot of `dict_size - 1`; just above a slot boundary the top slot holds
+    // a single distance (the inputs with period `dict_size` put matches exactly there)
+    for dict in [4097u32, 5000, 6145, 7000, 12289, 100_000] {
+        for bt4 in [false, true] {
+            let mut o = base();
+            o.dict = dict;
+            o.normal = true;
+            o.bt4 = bt4;
+            v.push((format!("dict={dict},normal=true,bt4={bt4}"), o));
+        }
+    }
     for nice in [0u32, 1, 2, 7, 8, 9, 272, 273, 274, 1000, u32::MAX] {
         for normal in [false, true] {
             for bt4 in [false, true] {
